@@ -184,3 +184,43 @@ fn probe_keyderive_chain_composes() {
     }
     let _ = fs::remove_dir_all(&base);
 }
+
+/// C16 (second clause): benign members are extracted beneath the output directory with exactly their content, whatever form the
+/// output-directory argument has (`..` components, relative, trailing separator) and in the three extraction flavours
+#[test]
+fn probe_extract_into_noncanonical_output_dir() {
+    let base = std::env::temp_dir().join(format!("verif-mlar-extract-{}", std::process::id()));
+    let _ = fs::remove_dir_all(&base);
+    fs::create_dir_all(base.join("work")).unwrap();
+    let base = fs::canonicalize(&base).unwrap();
+    let archive = base.join("a.mla");
+    {
+        let mut cfg = ArchiveWriterConfig::new();
+        cfg.set_layers(Layers::EMPTY);
+        let mut w = ArchiveWriter::from_config(File::create(&archive).unwrap(), cfg).unwrap();
+        w.add_file("sub/hello.txt", 5, &b"hello"[..]).unwrap();
+        w.add_file("sub/deep/data.bin", 4, &[1u8, 2, 3, 4][..]).unwrap();
+        w.add_file("top.txt", 3, &b"top"[..]).unwrap();
+        w.finalize().unwrap();
+    }
+    let forms = [
+        base.join("out_plain"), base.join("work").join("..").join("out_dotdot"), base.join("work").join("..").join("work").join("..").join("out_twice"),
+        base.join("out_trailing").join(""), base.join(".").join("out_dot"),
+    ];
+    for (k, out) in forms.iter().enumerate() {
+        for flavour in 0..3 {
+            let out = PathBuf::from(format!("{}_{flavour}", out.to_str().unwrap().trim_end_matches('/')));
+            let mut argv = vec!["mlar".to_string(), "extract".to_string(), "-i".to_string(), archive.to_str().unwrap().to_string(), "-o".to_string(), out.to_str().unwrap().to_string()];
+            match flavour { 1 => { argv.push("-g".into()); argv.push("*".into()); } 2 => { argv.push("sub/hello.txt".into()); } _ => {} }
+            let m = app().try_get_matches_from(argv).unwrap();
+            extract(m.subcommand().unwrap().1).unwrap();
+            let real = fs::canonicalize(&out).unwrap();
+            assert_eq!(fs::read(real.join("sub/hello.txt")).ok().as_deref(), Some(&b"hello"[..]), "output dir form #{k} flavour {flavour}: sub/hello.txt not extracted");
+            if flavour != 2 {
+                assert_eq!(fs::read(real.join("sub/deep/data.bin")).ok().as_deref(), Some(&[1u8, 2, 3, 4][..]), "output dir form #{k} flavour {flavour}: sub/deep/data.bin not extracted");
+                assert_eq!(fs::read(real.join("top.txt")).ok().as_deref(), Some(&b"top"[..]), "output dir form #{k} flavour {flavour}: top.txt not extracted");
+            }
+        }
+    }
+    let _ = fs::remove_dir_all(&base);
+}
